@@ -534,3 +534,169 @@ Qed.
 End SwapTokens.
 
 (* ================================================================ *)
+(** * 3. A concrete text, lexed, renamed, parsed and run both ways *)
+
+
+(**  ধরি a = "hi"; ধরি o = {k: a}; ফাংশন f(p) { ফেরত p + o.k; } দেখাও f(a); দেখাও o;
+     (a = 97, b = 98, f = 102, j = 106, k = 107, o = 111, p = 112) *)
+Definition ex_src : list N :=
+  [2471;2480;2495;32;97;32;61;32;34;104;105;34;59;32;
+   2471;2480;2495;32;111;32;61;32;123;107;58;32;97;125;59;32;
+   2475;2494;2434;2486;2472;32;102;40;112;41;32;123;32;2475;2503;2480;2468;32;112;32;43;32;111;46;107;59;32;125;32;
+   2470;2503;2454;2494;2451;32;102;40;97;41;59;32;
+   2470;2503;2454;2494;2451;32;111;59].
+
+Definition ex_toks : list token := lx_tokens (lex ex_src).
+Definition ex_eofl : N := lx_eof_line (lex ex_src).
+Definition ex_prog : list stmt :=
+  match pr_prog (parse ex_toks ex_eofl) with Some p => p | None => [] end.
+
+Example ex_lexes : lx_diags (lex ex_src) = [] /\ length ex_toks = 37%nat.
+Proof. split; vm_compute; reflexivity. Qed.
+
+Example ex_accepts : accepts ex_eofl ex_toks ex_prog.
+Proof. split; vm_compute; reflexivity. Qed.
+
+(** the only identifier lexeme in property / key position is k (twice) *)
+Example ex_prop_names : prop_names ex_toks = [[107]; [107]].
+Proof. vm_compute. reflexivity. Qed.
+
+(** the swap a <-> b changes six tokens ... *)
+Example ex_renamed_lexemes :
+  map tlex (filter (is_kind TIDENTIFIER) ex_toks) =
+    [[97]; [111]; [107]; [97]; [102]; [112]; [112]; [111]; [107]; [102]; [97]; [111]] /\
+  map tlex (filter (is_kind TIDENTIFIER) (map (ren_tok (swap [97] [98])) ex_toks)) =
+    [[98]; [111]; [107]; [98]; [102]; [112]; [112]; [111]; [107]; [102]; [98]; [111]].
+Proof. split; vm_compute; reflexivity. Qed.
+
+(** ... and parsing the renamed tokens gives the renamed tree (by computation) ... *)
+Example ex_parse_renamed :
+  pr_prog (parse (map (ren_tok (swap [97] [98])) ex_toks) ex_eofl) = Some (map (ren_stmt (swap [97] [98])) ex_prog) /\
+  pr_diags (parse (map (ren_tok (swap [97] [98])) ex_toks) ex_eofl) = [] /\
+  map (ren_stmt (swap [97] [98])) ex_prog <> ex_prog.
+Proof.
+  split; [vm_compute; reflexivity|]. split; [vm_compute; reflexivity|].
+  vm_compute. discriminate.
+Qed.
+
+(** ... both programs print "hihi" and "map[k:hi]" (by computation, dummy oracles) ... *)
+Example ex_runs :
+  observables (run_stmts libm_d f_zero sched_d 50 false ex_prog (init_state [])) =
+    (EndOk, Some ([EvPrint [109;97;112;91;107;58;104;105;93]; EvPrint [104;105;104;105]], [], 0)) /\
+  match pr_prog (parse (map (ren_tok (swap [97] [98])) ex_toks) ex_eofl) with
+  | Some prog' =>
+      observables (run_stmts libm_d f_zero sched_d 50 false prog' (init_state [])) =
+        (EndOk, Some ([EvPrint [109;97;112;91;107;58;104;105;93]; EvPrint [104;105;104;105]], [], 0))
+  | None => False
+  end.
+Proof. split; vm_compute; reflexivity. Qed.
+
+(** ... and by the theorem: for every oracle, fuel, mode and input *)
+Example ex_fun_names_ok : Forall (fun_names_ok (fun n => n <> [97] /\ n <> [98])) ex_prog.
+Proof.
+  unfold ex_prog. set (p := pr_prog (parse ex_toks ex_eofl)). vm_compute in p. subst p. cbv beta iota.
+  repeat first [ exact I | discriminate | split | constructor ].
+Qed.
+
+Example ex_invariant libm clock sched f repl stdin :
+  exists prog',
+    accepts ex_eofl (map (ren_tok (swap [97] [98])) ex_toks) prog' /\
+    prog' = map (ren_stmt (swap [97] [98])) ex_prog /\
+    observables (run_stmts libm clock sched f repl prog' (init_state stdin)) =
+    observables (run_stmts libm clock sched f repl ex_prog (init_state stdin)).
+Proof.
+  apply rename_tokens_swap.
+  - vm_compute. intuition discriminate.
+  - vm_compute. intuition discriminate.
+  - exact ex_accepts.
+  - exact ex_fun_names_ok.
+  - rewrite ex_prop_names. cbn. intuition discriminate.
+  - rewrite ex_prop_names. cbn. intuition discriminate.
+Qed.
+
+(** a computable test for [fixes_other_lexemes] *)
+Lemma fixes_other_check (r : list N -> list N) ts :
+  forallb (fun t => tkind_eqb (tk t) TIDENTIFIER || str_eqb (r (tlex t)) (tlex t)) ts = true ->
+  fixes_other_lexemes r ts.
+Proof.
+  intros H t Ht Hk. rewrite forallb_forall in H. specialize (H t Ht).
+  apply Bool.orb_true_iff in H. destruct H as [H|H].
+  - apply tkind_eqb_eq in H. contradiction.
+  - apply str_eqb_eq. exact H.
+Qed.
+
+(** a text with a syntax error at an identifier:  দেখাও a a;  -- the diagnostic "expected
+    ; after value" quotes a; in the renamed text it quotes b (by the theorem, then by
+    computation) *)
+Definition ex_bad : list N := [2470;2503;2454;2494;2451;32;97;32;97;59].
+
+Example ex_bad_diags_thm :
+  let ts := lx_tokens (lex ex_bad) in
+  pr_diags (parse (map (ren_tok (swap [97] [98])) ts) 1) = map (map_pd (swap [97] [98])) (pr_diags (parse ts 1)).
+Proof.
+  intros ts.
+  assert (R : forall x, In (swap [97] [98] x) reserved_names <-> In x reserved_names).
+  { apply r_reserved_of_native; [apply swap_inj| |].
+    - intros n. destruct n; vm_compute; reflexivity.
+    - vm_compute. reflexivity. }
+  apply (parse_rename_eq (swap [97] [98]) 1 (swap_inj [97] [98]) R ts).
+  apply fixes_other_check. vm_compute. reflexivity.
+Qed.
+
+Example ex_bad_diags :
+  let ts := lx_tokens (lex ex_bad) in
+  pr_diags (parse ts 1) = [mkPD 1 (Some [97]) PSemiAfterValue] /\
+  pr_diags (parse (map (ren_tok (swap [97] [98])) ts) 1) = [mkPD 1 (Some [98]) PSemiAfterValue].
+Proof. split; vm_compute; reflexivity. Qed.
+
+(* ---------------------------------------------------------------- *)
+(** ** why the hypotheses are there *)
+
+(** Keys are data.  The swap j <-> k is injective and fixes every reserved word and
+    function name, and the renamed token list is accepted with the fully renamed tree
+    ([parse_rename_accepted]) -- but that tree is not the [ren_stmt]-renamed one, and it
+    prints "map[j:hi]" instead of "map[k:hi]". *)
+Example key_renaming_is_observable :
+  pr_prog (parse (map (ren_tok (swap [106] [107])) ex_toks) ex_eofl) = Some (map (ren_stmt_all (swap [106] [107])) ex_prog) /\
+  map (ren_stmt_all (swap [106] [107])) ex_prog <> map (ren_stmt (swap [106] [107])) ex_prog /\
+  observables (run_stmts libm_d f_zero sched_d 50 false (map (ren_stmt_all (swap [106] [107])) ex_prog) (init_state [])) =
+    (EndOk, Some ([EvPrint [109;97;112;91;106;58;104;105;93]; EvPrint [104;105;104;105]], [], 0)) /\
+  observables (run_stmts libm_d f_zero sched_d 50 false (map (ren_stmt_all (swap [106] [107])) ex_prog) (init_state [])) <>
+  observables (run_stmts libm_d f_zero sched_d 50 false ex_prog (init_state [])).
+Proof.
+  split; [vm_compute; reflexivity|]. split; [vm_compute; discriminate|].
+  split; [vm_compute; reflexivity|]. vm_compute. discriminate.
+Qed.
+
+(** The reserved-word hypothesis.  The swap a <-> input is injective and fixes the 17
+    built-in names (the hypotheses of the evaluator theorem), but "input" may not be
+    declared: the renamed text is rejected. *)
+Example reserved_word_counterexample :
+  (forall n, swap [97] input_ascii (native_name n) = native_name n) /\
+  pr_diags (parse ex_toks ex_eofl) = [] /\
+  pr_prog (parse (map (ren_tok (swap [97] input_ascii)) ex_toks) ex_eofl) = None /\
+  pr_diags (parse (map (ren_tok (swap [97] input_ascii)) ex_toks) ex_eofl) = [mkPD 1 (Some input_ascii) PReservedVar].
+Proof.
+  split; [intros n; destruct n; vm_compute; reflexivity|].
+  split; [vm_compute; reflexivity|]. split; vm_compute; reflexivity.
+Qed.
+
+(** The diagnostics of the renamed token list are not [map_pd r] ([option_map r] on the
+    quoted lexeme) of the original ones: a diagnostic may quote a token that is not an
+    identifier, and such a token is not renamed.  Here [r] swaps the lexemes ";" and
+    "a", the text is ";" alone.  ([pprogram_rename_eq] needs [fixes_other_lexemes].) *)
+Example map_pd_is_false :
+  let ts := lx_tokens (lex [59]) in
+  let r := swap [59] [97] in
+  pr_diags (parse ts 1) = [mkPD 1 (Some [59]) PExpectExpr] /\
+  pr_diags (parse (map (ren_tok r) ts) 1) = [mkPD 1 (Some [59]) PExpectExpr] /\
+  map (map_pd r) (pr_diags (parse ts 1)) = [mkPD 1 (Some [97]) PExpectExpr].
+Proof. split; [|split]; vm_compute; reflexivity. Qed.
+
+(* ---------------------------------------------------------------- *)
+Print Assumptions pprogram_keys.
+Print Assumptions parse_keys.
+Print Assumptions parse_rename_fixed.
+Print Assumptions rename_tokens_run.
+Print Assumptions rename_tokens_swap.
+Print Assumptions ex_invariant.
